@@ -9,6 +9,7 @@ from opensquirrel.ir import (
     Measure,
     Qubit,
     Reset,
+    Statement,
 )
 from opensquirrel.mapper.mapping import Mapping
 
@@ -39,26 +40,37 @@ class _QubitRemapper(IRVisitor):
         qubit.index = self.mapping[qubit.index]
         return qubit
 
+    def _visit_arguments(self, statement: Statement) -> None:
+        # The arguments are the second description of a named statement (the one that gets written and exported).
+        for argument in getattr(statement, "arguments", None) or ():
+            if isinstance(argument, Qubit):
+                argument.accept(self)
+
     def visit_reset(self, reset: Reset) -> Reset:
         reset.qubit.accept(self)
+        self._visit_arguments(reset)
         return reset
 
     def visit_measure(self, measure: Measure) -> Measure:
         measure.qubit.accept(self)
+        self._visit_arguments(measure)
         return measure
 
     def visit_bloch_sphere_rotation(self, g: BlochSphereRotation) -> BlochSphereRotation:
         g.qubit.accept(self)
+        self._visit_arguments(g)
         return g
 
     def visit_matrix_gate(self, g: MatrixGate) -> MatrixGate:
         for op in g.operands:
             op.accept(self)
+        self._visit_arguments(g)
         return g
 
     def visit_controlled_gate(self, controlled_gate: ControlledGate) -> ControlledGate:
         controlled_gate.control_qubit.accept(self)
         controlled_gate.target_gate.accept(self)
+        self._visit_arguments(controlled_gate)
         return controlled_gate
 
 
